@@ -24,7 +24,7 @@ from ..symx import E, SB, SI, lift
 ID = "C06"
 LEVEL = "model_checking"
 
-DRIVERS = ("Canonical", "Canonical+operations", "HamiltonianCanonical", "Isobaric", "Isotension", "GrandCanonical", "GrandCanonical+composites", "ForceBias", "AdaptiveForceBias")
+DRIVERS = ("Canonical", "Canonical+operations", "HamiltonianCanonical", "HamiltonianCanonical+forced", "Isobaric", "Isotension", "GrandCanonical", "GrandCanonical+composites", "ForceBias", "AdaptiveForceBias")
 
 
 # ------------------------------------------------------------------ stubs for numpy's bit generator / generator
@@ -83,9 +83,10 @@ class Foreign:
         mon = self
 
         def wrapper(*a, **k):
-            f = sys._getframe(1)
-            if f.f_code.co_filename.startswith(mon.src):
-                mon.hits.append(f"{getattr(owner, '__name__', owner)}.{name} called from {f.f_code.co_filename[len(mon.src):]}:{f.f_lineno}")
+            q = mon._quansino_frame()
+            if q is not None:
+                via = sys._getframe(1).f_code.co_filename
+                mon.hits.append(f"{getattr(owner, '__name__', owner)}.{name} called from {q}" + ("" if via.startswith(mon.src) else f" (through {os.path.basename(via)})"))
             return orig(*a, **k)
 
         try:
@@ -93,6 +94,21 @@ class Foreign:
             self.saved.append((owner, name, orig))
         except (AttributeError, TypeError):
             pass
+
+    def _quansino_frame(self, depth=2, limit=25):
+        """Innermost quansino frame on the stack of the caller: entropy drawn by a library function that quansino
+        called (with that library's default generator) counts as well."""
+        f = sys._getframe(depth)
+        for _ in range(limit):
+            if f is None:
+                return None
+            fn = f.f_code.co_filename
+            if fn.startswith(self.src):
+                return f"{fn[len(self.src):]}:{f.f_lineno}"
+            if "/qverif/" in fn:
+                return None  # the harness itself (below it nothing is quansino's doing)
+            f = f.f_back
+        return None
 
     def _wrap_ctor(self, owner, name):
         """Generator / bit-generator constructors: flagged when built UNSEEDED from quansino source."""
@@ -102,10 +118,10 @@ class Foreign:
         mon = self
 
         def wrapper(*a, **k):
-            f = sys._getframe(1)
             seed = a[0] if a else k.get("seed", k.get("entropy"))
-            if f.f_code.co_filename.startswith(mon.src) and seed is None:
-                mon.hits.append(f"unseeded {getattr(owner, '__name__', owner)}.{name}() built in {f.f_code.co_filename[len(mon.src):]}:{f.f_lineno}")
+            q = mon._quansino_frame() if seed is None else None
+            if q is not None:
+                mon.hits.append(f"unseeded {getattr(owner, '__name__', owner)}.{name}() built under {q}")
             return orig(*a, **k)
 
         try:
@@ -185,7 +201,7 @@ def _build(V, driver, seed):
         else:
             sim = AdaptiveForceBias(atoms, min_delta=0.01, max_delta=0.1, temperature=300.0, seed=seed)
         return sim, atoms
-    atoms = mcsim.make_atoms(V, n, momenta=(driver == "HamiltonianCanonical"), extras=False)
+    atoms = mcsim.make_atoms(V, n, momenta=driver.startswith("HamiltonianCanonical"), extras=False)
     pes = mcsim.PES(V)
     atoms.calc = mcsim.ModelCalc("caching", pes)
     lab = np.arange(n)
@@ -216,6 +232,15 @@ def _build(V, driver, seed):
         from quansino.integrators.displacement import Verlet
 
         sim.add_move(HamiltonianDisplacementMove(operation=Verlet(dt=1.0, max_steps=1)), name="h")
+    elif driver == "HamiltonianCanonical+forced":
+        # momenta rescaled to the exact temperature: the documented `forced=True` variant of the shipped distribution
+        import functools
+
+        from quansino.integrators.displacement import Verlet
+        from quansino.utils.dynamics import maxwell_boltzmann_distribution
+
+        sim = HamiltonianCanonical(atoms, temperature=300.0, max_cycles=1, seed=seed)
+        sim.add_move(HamiltonianDisplacementMove(functools.partial(maxwell_boltzmann_distribution, forced=True), operation=Verlet(dt=1.0, max_steps=1)), name="h")
     elif driver == "Isobaric":
         sim = Isobaric(atoms, temperature=300.0, pressure=0.01, max_cycles=1, seed=seed, default_displacement_move=DisplacementMove(lab), default_cell_move=CellMove())
     elif driver == "Isotension":
@@ -345,7 +370,7 @@ def sc_foreign(V, driver="Canonical"):
         try:
             if hasattr(sim, "validate_simulation"):
                 sim.validate_simulation()
-            if driver == "HamiltonianCanonical":
+            if driver.startswith("HamiltonianCanonical"):
                 sim.context.last_kinetic_energy = atoms.get_kinetic_energy()
             r = sim.step()
             if r is not None and hasattr(r, "__iter__") and not isinstance(r, np.ndarray):
